@@ -114,7 +114,13 @@ class DeserializationRecursiveChecker(
 class SerializationRecursiveChecker(
     SerializationVisitor, SerializationObjectVisitor, RecursiveChecker[Serialization]
 ):
-    pass
+    def object(self, tp: AnyType, fields: Sequence[ObjectField]):
+        from apischema.serialization.serialized_methods import get_serialized_methods
+
+        super().object(tp, fields)
+        # the results of serialized methods are part of the serialized object
+        for serialized, types in get_serialized_methods(tp):
+            self.visit_with_conv(types["return"], serialized.conversion)
 
 
 # RecursiveChecker instances of a same direction share (read and write) the same cache
